@@ -86,7 +86,7 @@ def pt2_task(args):
             a, b = full_snapshot(eager), full_snapshot(comp)
             diff = beyond_rounding(eager, comp, sorted(k for k in a if a[k] != b.get(k))) if a != b else []
             if diff:
-                mm.append((i + 1, f"pt2.{backend}.dyn{dyn}.state", "bitwise equal to the eager optimizer", f"differs in {diff[:4]}"))
+                mm.append((i + 1, f"pt2.{backend}.dyn{dyn}.state", "equal to the eager optimizer (bits, or within 64 ulp)", f"differs in {diff[:4]}"))
                 break
             ra = [o.get("raised") for o in eager.trace[-1]["obs"]]
             rb = [o.get("raised") for o in comp.trace[-1]["obs"]]
